@@ -6,6 +6,9 @@
 //! Case line formats (all tokens separated by one space):
 //!   C20 zch we <n> dl <n> ss <0|1|2> pn <-|n {kind code}*> D <nlines> {L <nchords> {<nkeys> code*}* O <nouts> {kind code}*}* H <nev> {p c | r c | t n}*
 //!   C20 ssm I <nins> {<nkeys> k* <val>}* Q <nq> {<nkeys> k*}*
+//!   C20 zcw <same fields as zch>   -- the same dictionary under `(defsrc lalt)(deflayer base (caps-word 2000))`:
+//!       key 56 (lalt) in the history switches caps-word on.  Outside the Lean model (answered
+//!       `unsupported :: TRACE <OS trace>`); judged by the model-free oracle of runner/props.py.
 //! Result format:
 //!   zch: `rej dup` | the OS trace `t<ticks> d<code> u<code> ...` (`-` when empty)
 //!   ssm: one of `v<val>`, `sub`, `no` per query, then `e<0|1>` (is_empty)
@@ -272,6 +275,10 @@ fn render_chord(keys: &[u16]) -> String {
 }
 
 pub fn render(c: &Case) -> (String, String) {
+    render_in(c, "(defsrc)(deflayer base)")
+}
+
+pub fn render_in(c: &Case, layer: &str) -> (String, String) {
     let mut m = Mapper { by_text: vec![] };
     let mut file = String::new();
     for l in &c.lines {
@@ -296,7 +303,7 @@ pub fn render(c: &Case) -> (String, String) {
     }
     let ss = ["none", "add-space-only", "full"][c.ss as usize];
     let cfg = format!(
-        "(defsrc)(deflayer base)(defzippy file on-first-press-chord-deadline {} idle-reactivate-time {} smart-space {}{}{})",
+        "{layer}(defzippy file on-first-press-chord-deadline {} idle-reactivate-time {} smart-space {}{}{})",
         c.dl, c.we, ss, maps, punc
     );
     (cfg, file)
@@ -533,8 +540,15 @@ pub fn shape_tags(c: &Case) -> Vec<&'static str> {
         type_on(&mut screen, &b.outs[cp..], shift && cp == 0);
         let mut ideal = pad.clone();
         type_on(&mut ideal, &b.outs, shift);
-        if screen != ideal {
+        // (only a Backspace inside the earlier expansion can take the shared prefix off the screen;
+        // a no-erase output in the prefix is the separate finding tagged below)
+        if screen != ideal && a.outs.iter().any(|o| o.code == K_BSPC) {
             add("shared-prefix-deleted-by-backspace-of-earlier-expansion");
+        }
+        // the re-used prefix contains a no-erase output (dead key): the prefix is counted in
+        // outputs but subtracted from a count of display characters
+        if a.outs[..cp].iter().any(|o| o.kind >= 4) {
+            add("reused-prefix-contains-no-erase-output");
         }
     }
     if c.ss == 2 {
@@ -596,8 +610,23 @@ fn eval_zch(t: &mut Toks) -> String {
     }
 }
 
+/// caps-word slice (family `zcw`): the real Kanata with a caps-word key; no Lean model of caps-word
+fn eval_zcw(t: &mut Toks) -> String {
+    let c = parse_case(t);
+    let res = eval_zch_case_in(&c, "(defsrc lalt)(deflayer base (caps-word 2000))");
+    if res.starts_with("rej") {
+        res
+    } else {
+        format!("unsupported :: TRACE {res}")
+    }
+}
+
 fn eval_zch_case(c: &Case) -> String {
-    let (cfg, file) = render(&c);
+    eval_zch_case_in(c, "(defsrc)(deflayer base)")
+}
+
+fn eval_zch_case_in(c: &Case, layer: &str) -> String {
+    let (cfg, file) = render_in(&c, layer);
     let mut fc: FxHashMap<String, String> = Default::default();
     fc.insert("file".into(), file);
     // Kanata::new_from_str re-configures the process-global zippychord state (zch_configure ->
@@ -656,6 +685,7 @@ pub fn eval(line: &str) -> String {
     t.expect("C20");
     match t.s() {
         "zch" => eval_zch(&mut t),
+        "zcw" => eval_zcw(&mut t),
         "ssm" => eval_ssm(&mut t),
         x => format!("harness-error unknown family {x}"),
     }
@@ -1152,6 +1182,149 @@ pub fn gen(tier: &str, seed: u64) -> Vec<String> {
                     }
                 }
             }
+        }
+    }
+    // H. a chord superseded in the same hold by a longer chord whose expansion shares a prefix that
+    // contains a no-erase output (dead key): at the end of the shared prefix, inside it, and as a
+    // single-output group (remark R1; judged by the dead-key reading of runner/props.py)
+    {
+        let plain: [u16; 8] = [35, 18, 38, 24, 30, 45, 21, 44]; // h e l o a x y z
+        let dead: [u16; 3] = [41, 40, 13]; // ` ' =
+        for i in 0..(if thorough { 60 } else { 24 }) {
+            let keys = subset(&mut r, &CHORD_KEYS[..6], 3);
+            let dk = Out { kind: 4 + (i % 2) as u8, code: dead[i % 3] };
+            let mut prefix: Vec<Out> = (0..r.range(0, 2)).map(|_| Out { kind: 0, code: *r.pick(&plain) }).collect();
+            prefix.push(dk);
+            if i % 3 == 1 {
+                // the dead key inside the shared prefix
+                prefix.push(Out { kind: 0, code: *r.pick(&plain) });
+            }
+            let a0 = *r.pick(&plain);
+            let b0 = *plain.iter().find(|k| **k != a0).unwrap();
+            let mut oa = prefix.clone();
+            oa.push(Out { kind: 0, code: a0 });
+            oa.extend((0..r.range(0, 2)).map(|_| Out { kind: 0, code: *r.pick(&plain) }));
+            let mut ob = prefix.clone();
+            ob.push(Out { kind: 0, code: b0 });
+            ob.extend((0..r.range(0, 2)).map(|_| Out { kind: 0, code: *r.pick(&plain) }));
+            let lines = vec![
+                Line { chords: vec![keys[..2].to_vec()], outs: oa },
+                Line { chords: vec![keys.clone()], outs: ob },
+            ];
+            let mut sorted = keys.clone();
+            sorted.sort();
+            for p in permutations(&sorted) {
+                let mut hist = vec![];
+                for k in &p {
+                    hist.push(Ev::P(*k));
+                    hist.push(Ev::T(r.range(1, 4) as u32));
+                }
+                hist.push(Ev::T(30));
+                out.push(case_line(&Case { we: 500, dl: 500, ss: 0, pn: None, lines: lines.clone(), hist }));
+            }
+        }
+    }
+    // I. caps-word slice (family zcw, remark R2): caps-word is switched on by a tap of lalt, then
+    // one dictionary line is performed; expansions with capitals at the start and inside; chords
+    // of letters (caps-word holds shift while they are down) and of digits (it does not)
+    {
+        let letters: [u16; 5] = [30, 48, 46, 32, 18];
+        let digits: [u16; 4] = [2, 3, 4, 5];
+        let outk: [u16; 6] = [45, 21, 44, 30, 48, 20];
+        for i in 0..(if thorough { 80 } else { 30 }) {
+            let mut word = |r: &mut Rng, cap_first: bool| -> Vec<Out> {
+                let n = r.range(1, 4) as usize;
+                (0..n).map(|j| Out { kind: if (j == 0 && cap_first) || r.chance(1, 4) { 1 } else { 0 }, code: *r.pick(&outk) }).collect()
+            };
+            let first: Vec<u16> = if i % 2 == 0 { subset(&mut r, &letters, 2) } else { subset(&mut r, &digits, 2) };
+            let follow: Vec<u16> = if i % 4 < 2 { vec![*r.pick(&digits[2..])] } else { vec![*r.pick(&letters)] };
+            let follow = if first.contains(&follow[0]) { vec![5] } else { follow };
+            let lines = vec![
+                Line { chords: vec![first.clone()], outs: word(&mut r, i % 3 == 0) },
+                Line { chords: vec![first.clone(), follow.clone()], outs: word(&mut r, true) },
+            ];
+            for (li, l) in lines.iter().enumerate() {
+                let mut hist = vec![Ev::P(56), Ev::T(3), Ev::R(56), Ev::T(5)];
+                for (ci, ch) in l.chords.iter().enumerate() {
+                    let mut c = ch.clone();
+                    shuffle(&mut r, &mut c);
+                    for k in &c {
+                        hist.push(Ev::P(*k));
+                        hist.push(Ev::T(r.range(1, 4) as u32));
+                    }
+                    hist.push(Ev::T(5));
+                    if ci + 1 < l.chords.len() || (i + li) % 2 == 0 {
+                        for k in &c {
+                            hist.push(Ev::R(*k));
+                            hist.push(Ev::T(2));
+                        }
+                        hist.push(Ev::T(5));
+                    }
+                }
+                hist.push(Ev::T(30));
+                let line = case_line(&Case { we: 500, dl: 500, ss: 0, pn: None, lines: lines.clone(), hist });
+                out.push(line.replacen("C20 zch ", "C20 zcw ", 1));
+            }
+        }
+    }
+    // J. partial release, then extend (seeded change C20g): a tower of entries K1 < K2 (< K3); the
+    // keys of K1 are pressed, some but not all of them are released, then the missing keys of the
+    // next entry and the released ones are pressed in any order; expansions with and without a
+    // shared prefix (judged by runner/props.py _c20_partial_release_oracle where the Lean
+    // specification is silent)
+    {
+        let outk: [u16; 8] = [36, 24, 37, 18, 22, 49, 34, 38]; // j o k e u n g l
+        for i in 0..(if thorough { 400 } else { 150 }) {
+            let depth = 2 + (i % 3 == 2) as usize;
+            let keys = subset(&mut r, &CHORD_KEYS[..7], 2 + depth - 1 + (i % 2));
+            let mut lines: Vec<Line> = vec![];
+            let mut sizes = vec![2usize];
+            for d in 1..depth {
+                let prev = sizes[d - 1];
+                sizes.push((prev + 1 + (i % 2) * (d == depth - 1) as usize).min(keys.len()));
+            }
+            sizes.dedup();
+            for (li, sz) in sizes.iter().enumerate() {
+                let mut o: Vec<Out> = vec![];
+                if li > 0 && i % 4 < 2 {
+                    let b = &lines[li - 1].outs;
+                    o.extend(b[..r.range(1, b.len() as u64) as usize].iter().cloned());
+                }
+                for _ in 0..r.range(1, 4) {
+                    o.push(Out { kind: if r.chance(1, 6) { 1 } else { 0 }, code: *r.pick(&outk) });
+                }
+                lines.push(Line { chords: vec![keys[..*sz].to_vec()], outs: o });
+            }
+            let mut hist = vec![];
+            let mut held: Vec<u16> = vec![];
+            for (li, sz) in sizes.iter().enumerate() {
+                let mut to_press: Vec<u16> = keys[..*sz].iter().copied().filter(|k| !held.contains(k)).collect();
+                shuffle(&mut r, &mut to_press);
+                for k in to_press {
+                    hist.push(Ev::P(k));
+                    held.push(k);
+                    hist.push(Ev::T(r.range(1, 3) as u32));
+                }
+                if li + 1 < sizes.len() {
+                    // release some, not all
+                    let mut rel = held.clone();
+                    shuffle(&mut r, &mut rel);
+                    rel.truncate(r.range(1, held.len() as u64 - 1) as usize);
+                    for k in rel {
+                        hist.push(Ev::R(k));
+                        held.retain(|x| *x != k);
+                        hist.push(Ev::T(r.range(1, 3) as u32));
+                    }
+                }
+            }
+            if i % 5 < 2 {
+                for k in held.clone() {
+                    hist.push(Ev::R(k));
+                    hist.push(Ev::T(1));
+                }
+            }
+            hist.push(Ev::T(30));
+            out.push(case_line(&Case { we: 500, dl: *r.pick(&[0u16, 500]), ss: 0, pn: None, lines, hist }));
         }
     }
     out
